@@ -19,6 +19,11 @@ from base64 import decodebytes, encodebytes
 from harness.gen import T, Family, LEAF_PY, NODEFAULT, td_order, td_is_optional
 
 
+# the reference reads NamedTuples in the dict form (dialect / Config option namedtuple_as_dict, or the
+# field option serialize / deserialize = "as_dict") while this is True; set by the as_dict scenarios only
+NT_AS_DICT = False
+
+
 class RefError(Exception):
     """the reference semantics is undefined on this input"""
 
@@ -195,6 +200,8 @@ def ref_encode(t: T, v, fam: Family, ns):
         return {(f.alias if (by_alias and f.alias is not None) else f.name): ref_encode(f.ty, getattr(v, f.name), fam, ns) for f in fields}
     if k == "nt":
         spec = fam.get(t.name)
+        if NT_AS_DICT:
+            return {f.name: ref_encode(f.ty, x, fam, ns) for f, x in zip(spec.fields, v)}
         return [ref_encode(f.ty, x, fam, ns) for f, x in zip(spec.fields, v)]
     if k == "td":
         spec = fam.get(t.name)
@@ -362,6 +369,19 @@ def ref_decode(t: T, d, fam: Family, ns):
             elif f.default is NODEFAULT:
                 raise RefError(f"missing field {f.name}")
         return cls(**kw)
+    if k == "nt" and NT_AS_DICT:
+        # namedtuple_as_dict: items are looked up by field name; a missing key is legal only for a field
+        # that has a default (which it then takes); surplus keys are ignored
+        spec = fam.get(t.name)
+        if not isinstance(d, dict):
+            raise RefError("non-mapping for a NamedTuple in the as_dict form")
+        kw = {}
+        for f in spec.fields:
+            if f.name in d:
+                kw[f.name] = ref_decode(f.ty, d[f.name], fam, ns)
+            elif f.default is NODEFAULT:
+                raise RefError(f"missing key {f.name}")
+        return ns[t.name](**kw)
     if k == "nt":
         spec = fam.get(t.name)
         out = []
